@@ -143,6 +143,16 @@ impl Stack {
         self.stack[frame.rp as usize + index] = value;
     }
 
+    /// Number of values currently on the stack.
+    pub(crate) fn len(&self) -> usize {
+        self.stack.len()
+    }
+
+    /// Truncate the stack to `len` values (no-op if it is already shorter).
+    pub(crate) fn truncate(&mut self, len: usize) {
+        self.stack.truncate(len);
+    }
+
     /// Truncate the stack to the given frame.
     pub(crate) fn truncate_to_frame(&mut self, frame: &CallFrame) {
         self.stack.truncate(frame.frame_pointer());
@@ -835,7 +845,12 @@ impl Context {
                 frame = Some(f);
             }
             self.vm.frame_mut().environments.truncate(env_fp);
-            if let Some(frame) = frame {
+            if self.vm.frame().exit_early() {
+                // Same as an uncaught exception leaving this host entry: the frame's own
+                // slots (and those of the popped callees above it) are dead.
+                let frame = self.vm.frames.last().expect("frame must exist");
+                self.vm.stack.truncate_to_frame(frame);
+            } else if let Some(frame) = frame {
                 self.vm.stack.truncate_to_frame(&frame);
             }
             return ControlFlow::Break(CompletionRecord::Throw(err));
